@@ -673,7 +673,7 @@ def run_text(ck, tier, seed):
     ck.funcs.update(['every Disassembler::<renderer> through Matcher<Disassembler>::call', 'Dsm(...) overloads, DsmReg, Mul, PA, the variadic D(...), std::vector<std::string>', 'Teakra::Disassembler::Do (join)'])
     ck.assumptions += ['text clause: std::string has an abstract domain (handle -> pieces: literal | "0x" + fixed-width hex digits of a term); the libstdc++ string API (constructors, append, +=, insert(0, ..), size, std::to_string of small values) and ToHex<T> (the only user of the stream classes: setfill(0) setw(2*sizeof(T)) hex) are modelled on it, all other code is the real IR',
                        'text equality is decided on a bit-vector encoding (length, characters) of each token, exact because every alternative of a token has a concrete length',
-                       'plain rendering (no ArArpSettings); the assembler generator (parser.cpp) is executed separately: its enumeration of all 65536 first words in full, its insertion / first-wins / lookup logic on 9 chosen words (Parser.domain, Parser.lookup); firmware assembly is not decided']
+                       'plain rendering (no ArArpSettings); the assembler generator (parser.cpp) is executed separately: its enumeration of all 65536 first words in full, its insertion / first-wins / lookup logic on 14 chosen words incl. token lists with empty tokens (Parser.domain, Parser.lookup); firmware assembly is not decided']
     ck.stubs += ['std::string -> abstract pieces', 'ToHex<T> -> "0x" + hex piece', 'GetTokenList inside Do -> the row renderer under test']
 
 
@@ -696,7 +696,10 @@ def job_parser(tier, seed):
     I = ex.intercepts
     # token texts per chosen word: (tokens, needs expansion); aliases print the same text
     K = {0x0000: (['first'], 0), 0x0001: (['alpha', 'r0'], 0), 0x0021: (['alpha', 'r0'], 0), 0x0101: (['alpha', 'r1'], 1), 0x4000: (['beta'], 0), 0x4001: (['[ERROR]7', 'x'], 0),
-         0x8123: (['gamma', '0x0001', 'a0'], 1), 0xFFFE: (['delta', 'z'], 0), 0xFFFF: (['omega', '[page:0x00ffu8]', '0x000f'], 0)}
+         0x8123: (['gamma', '0x0001', 'a0'], 1), 0xFFFE: (['delta', 'z'], 0), 0xFFFF: (['omega', '[page:0x00ffu8]', '0x000f'], 0),
+         # token lists with empty tokens (the real disassembler prints them: max/min with a zero step, the xy<- family with
+         # dmod off - 1424 first words): an empty token is a token, lists that differ only by one are different instructions
+         0x2000: (['eps', '', 'r0'], 0), 0x2001: (['eps', 'r0'], 1), 0x2002: (['zeta', '', ''], 0), 0x2003: (['zeta'], 0), 0x2004: (['zeta', ''], 1)}
     asked, asked_exp = [], []
     litreg = {}
 
@@ -841,5 +844,5 @@ def job_parser(tier, seed):
         ck.prove('Parser.lookup', [], z3.BoolVal(False), vars={}, witness=False, sample='; '.join(bad[:3]))
     ck.funcs.update(['Teakra::GenerateParser (loop, trie insertion, first-wins, superset ASSERT)', 'ParserImpl::Parse', 'std::unordered_map<std::variant<std::string, NodeAsExpansion>, std::unique_ptr<Node>> (real libstdc++ hashtable code)'])
     ck.assumptions += ['assembler generator: GetTokenList / NeedExpansion are answered by the check (the real ones are the text clause); std::_Hash_bytes is replaced by FNV-1a over the same bytes (any hash function is admissible for the container)',
-                       'the body of the generator loop is exercised on 9 chosen first words only (bounded); that it enumerates all 65536 first words is decided by executing the whole loop']
+                       'the body of the generator loop is exercised on 14 chosen first words only (bounded; they include lists that differ only by empty tokens, which the real disassembler emits); that it enumerates all 65536 first words is decided by executing the whole loop']
     return ck.export()
